@@ -201,6 +201,11 @@ def _numeric_verdict(rule, payload):
         lo, hi = _INT_RANGES[rule]
         val = int(payload)
         return (lo is None or val >= lo) and (hi is None or val <= hi)
+    if rule == "version":
+        m = re.match(r"^(0|[1-9][0-9]?)\.(0|[1-9][0-9]?)(\.(0|[1-9][0-9]?))?$", payload)
+        if m:
+            return (int(m.group(1)), int(m.group(2))) >= (1, 4)
+        return None
     if rule in _FLOAT_RANGES and _SIMPLE_DEC.match(payload):
         lo, hi = _FLOAT_RANGES[rule]
         return lo <= float(payload) <= hi
